@@ -19,6 +19,34 @@ fn let_in(pat: &str, simple: bool, v: &str, rest: &str) -> String {
     }
 }
 
+fn expr_attrs(e: &Expr) -> &[Attribute] {
+    match e {
+        Expr::Block(x) => &x.attrs,
+        Expr::If(x) => &x.attrs,
+        Expr::Match(x) => &x.attrs,
+        Expr::Loop(x) => &x.attrs,
+        Expr::While(x) => &x.attrs,
+        Expr::ForLoop(x) => &x.attrs,
+        Expr::Return(x) => &x.attrs,
+        Expr::Assign(x) => &x.attrs,
+        Expr::Binary(x) => &x.attrs,
+        Expr::Call(x) => &x.attrs,
+        Expr::MethodCall(x) => &x.attrs,
+        Expr::Macro(x) => &x.attrs,
+        Expr::Unsafe(x) => &x.attrs,
+        Expr::Paren(x) => &x.attrs,
+        Expr::Struct(x) => &x.attrs,
+        Expr::Tuple(x) => &x.attrs,
+        Expr::Path(x) => &x.attrs,
+        Expr::Lit(x) => &x.attrs,
+        Expr::Break(x) => &x.attrs,
+        Expr::Continue(x) => &x.attrs,
+        Expr::Try(x) => &x.attrs,
+        Expr::Let(x) => &x.attrs,
+        _ => &[],
+    }
+}
+
 fn is_skipped_macro(m: &Macro) -> bool {
     let n = m.path.segments.last().map(|s| s.ident.to_string()).unwrap_or_default();
     // debug assertions have no effect on the (non-panicking) value semantics that is translated
@@ -97,6 +125,7 @@ impl<'a> Tr<'a> {
                     return Err(unsupported(e, "`break` with a label or a value"));
                 }
                 match self.loops.last() {
+                    Some((c, _)) if c == "@@FOR@@" => Err(unsupported(e, "`break` inside a `for` over an array literal (the loop is unrolled)")),
                     Some((_, brk)) => Ok(brk.clone()),
                     None => Err(unsupported(e, "`break` outside a loop")),
                 }
@@ -106,6 +135,7 @@ impl<'a> Tr<'a> {
                     return Err(unsupported(e, "`continue` with a label"));
                 }
                 match self.loops.last() {
+                    Some((c, _)) if c == "@@FOR@@" => Err(unsupported(e, "`continue` inside a `for` over an array literal (the loop is unrolled)")),
                     Some((cont, _)) => Ok(cont.clone()),
                     None => Err(unsupported(e, "`continue` outside a loop")),
                 }
@@ -126,6 +156,18 @@ impl<'a> Tr<'a> {
             return k(self, unit());
         }
         let (first, rest) = (&stmts[0], &stmts[1..]);
+        {
+            // attributes inside a body (`#[cfg(..)]`, `#[cfg_attr(..)]`, ...) change what is compiled: fail closed
+            let attrs: &[Attribute] = match first {
+                Stmt::Local(l) => &l.attrs,
+                Stmt::Macro(m) => &m.attrs,
+                Stmt::Expr(e, _) => expr_attrs(e),
+                Stmt::Item(_) => &[],
+            };
+            if let Some(a) = attrs.iter().find(|a| !(a.path().is_ident("allow") || a.path().is_ident("doc") || a.path().is_ident("inline") || a.path().is_ident("rustfmt"))) {
+                return Err(unsupported(first, &format!("attribute `#[{}..]` on a statement or expression inside a function body", a.path().segments.last().map(|s| s.ident.to_string()).unwrap_or_default())));
+            }
+        }
         match first {
             Stmt::Local(l) => {
                 let init = match &l.init {
@@ -230,15 +272,56 @@ impl<'a> Tr<'a> {
         }
     }
 
+    /// `for pat in [e1, .., en] { body }`: the array is built first (all elements evaluated, in order), then the body is
+    /// unrolled once per element
     fn for_unrolled(&mut self, pat: &Pat, elems: &[&Expr], i: usize, body: &Block, env: &Env, k: K) -> R<String> {
+        if i == 0 {
+            // evaluate the elements eagerly into temporaries
+            let mut env2 = env.clone();
+            let mut lets: Vec<(String, String)> = vec![];
+            let mut names: Vec<Expr> = vec![];
+            for x in elems.iter() {
+                let eff = self.effects_expr(x);
+                if eff.ret || !eff.assigned.is_empty() {
+                    return Err(unsupported(*x, "array element with effects in a `for` over an array literal"));
+                }
+                let v = self.pure(x, &env2, None)?;
+                let (e3, rn, cn) = self.bind_tmp(&env2, &v);
+                env2 = e3;
+                lets.push((cn, v.s));
+                names.push(crate::effects::path_expr_of(&rn));
+            }
+            let refs: Vec<&Expr> = names.iter().collect();
+            // `break` / `continue` inside the unrolled body would refer to this `for`: not translated
+            self.loops.push(("@@FOR@@".into(), "@@FOR@@".into()));
+            let r = self.for_unrolled_from(pat, &refs, 0, body, &env2, env, k);
+            self.loops.pop();
+            let mut r = r?;
+            for (c, v) in lets.iter().rev() {
+                r = let_in(c, true, v, &r);
+            }
+            return Ok(r);
+        }
+        unreachable!()
+    }
+
+    #[allow(clippy::too_many_arguments)]
+    fn for_unrolled_from(&mut self, pat: &Pat, elems: &[&Expr], i: usize, body: &Block, env: &Env, env_after: &Env, k: K) -> R<String> {
         if i == elems.len() {
-            return k(self, unit());
+            // the continuation after the loop is translated outside the `for` frame
+            let frame = self.loops.pop();
+            let r = k(self, unit());
+            if let Some(f) = frame {
+                self.loops.push(f);
+            }
+            let _ = env_after;
+            return r;
         }
         let v = self.pure(elems[i], env, None)?;
         let mut env2 = env.clone();
         let ps = self.bind_pat(pat, &v.ty, &mut env2)?;
         let simple = matches!(pat, Pat::Ident(_) | Pat::Wild(_));
-        let rest = self.stmts_k(&body.stmts, &env2, None, &|tr, _v| tr.for_unrolled(pat, elems, i + 1, body, env, k))?;
+        let rest = self.stmts_k(&body.stmts, &env2, None, &|tr, _v| tr.for_unrolled_from(pat, elems, i + 1, body, env, env_after, k))?;
         Ok(let_in(&ps, simple, &v.s, &rest))
     }
 
@@ -286,6 +369,7 @@ impl<'a> Tr<'a> {
         }
         v.found
     }
+
 
     /// `slice.get_mut(i).ok_or(err).map(|b| { *b = v; })`: (slice place, index, error, closure)
     fn get_mut_chain(m: &ExprMethodCall) -> Option<(&Expr, &Expr, &Expr, &ExprClosure)> {
@@ -511,7 +595,13 @@ impl<'a> Tr<'a> {
     fn plain_match_k(&mut self, sc: &Val, arms: &[&Arm], rest: Option<&str>, env: &Env, hint: Option<&Ty>, k: K) -> R<String> {
         let mut pats = vec![];
         let mut bodies = vec![];
-        for arm in arms.iter() {
+        for (ai, arm) in arms.iter().enumerate() {
+            if matches!(arm.pat, Pat::Wild(_) | Pat::Ident(_)) && (ai + 1 < arms.len() || rest.is_some()) {
+                return Err(unsupported(*arm, "a catch-all arm that is not the last arm"));
+            }
+            if arm.attrs.iter().any(|a| !(a.path().is_ident("allow") || a.path().is_ident("doc") || a.path().is_ident("rustfmt"))) {
+                return Err(unsupported(*arm, "attribute on a match arm"));
+            }
             let mut env2 = env.clone();
             let mut ps = self.bind_pat(&arm.pat, &sc.ty, &mut env2)?;
             // a top-level or-pattern is written without the surrounding parentheses
